@@ -1122,6 +1122,10 @@ class Engine:
         st.alloc = a2
         self.havoc_frame(st, c.modifies, env, old)
         res = fresh(c.returns, "res") if c.returns is not None else vnone()
+        if res.ty.kind != "opt":
+            self.wf(st, res)
+        elif res.val.ty.kind == "tuple":
+            self.wf(st, res.val)
         # 3. exceptional outcomes
         for ename, spec in c.raises.items():
             st_e = st.fork()
@@ -1790,6 +1794,7 @@ class Engine:
             if lt.kind in ("closure", "class", "static", "module", "bound", "star"):
                 continue
             hv = fresh(lt, nm)
+            self.wf(st, hv)
             if nm in st.env or cur is None:
                 st.env[nm] = hv
             else:
